@@ -332,3 +332,33 @@ impl CollateralParts for TransactionBuilder {
         (body.collateral_return(), body.total_collateral())
     }
 }
+
+// ---------------------------------------------------------------- C18: certificate signer table
+/// draws: shape (numbering of c20_cert). One key input (key 1) plus the certificate (key credentials filled with byte 10):
+/// the size the builder predicts must equal the size of the transaction signed by exactly the distinct keys the
+/// ledger requires (C18's statement, observed through the public API).
+pub fn c18_cert_signers<S: Src>(s: &mut S) {
+    let sh = s.u8();
+    s.assume(sh <= 18);
+    let (cert, _, _) = c20_cert(sh, 7, 2_000_000, 500_000_000, 10);
+    let mut cb = CertificatesBuilder::new();
+    cb.add(&cert).unwrap();
+    let n_cert_signers: usize = match sh { 0 | 8 => 0, _ => 1 };
+    let mut tb = TransactionBuilder::new(&cfg_zero_cost());
+    tb.add_key_input(&ckh(1), &TransactionInput::new(&TransactionHash::from([1u8; 32]), 0), &val(5_000_000_000, 0));
+    tb.set_certs_builder(&cb);
+    tb.add_output(&TransactionOutput::new(&ent_addr(2), &val(1_000_000, 0))).unwrap();
+    tb.set_fee(&BigNum::from(1_000_000u64));
+    let predicted = tb.full_size().unwrap();
+    let tx = tb.build_tx_unsafe().unwrap();
+    let mut ws = tx.witness_set();
+    let mut vk = Vkeywitnesses::new();
+    for i in 0..(1 + n_cert_signers) {
+        let mut b = [9u8; 32]; b[31] = i as u8;
+        vk.add(&Vkeywitness::new(&Vkey::new(&PublicKey::from_bytes(&b).unwrap()), &Ed25519Signature::from_bytes(vec![7u8; 64]).unwrap()));
+    }
+    ws.set_vkeys(&vk);
+    let signed = Transaction::new(&tx.body(), &ws, tx.auxiliary_data()).to_bytes().len();
+    assert!(predicted >= signed && predicted - signed < 101,
+        "certificate shape {}: predicted size {} vs {} bytes when signed by the {} required keys", sh, predicted, signed, 1 + n_cert_signers);
+}
